@@ -234,40 +234,54 @@ def parse_miri(text):
     return kind, func, file, tail[:1500]
 
 
+PURE_SHARDS = {"C03": 12, "C13": 6, "C14": 3, "C16": 3}
+
+
 def run_pure(prop, tier, seed, log):
     res = {"summary": {}, "failures": [], "evaluations": 0, "distinct_nontrivial": 0, "inconclusive": 0, "inconclusive_notes": []}
     t0 = time.time()
-    outp = os.path.join(OUT, "miri-%s.json" % prop)
-    if os.path.exists(outp):
-        os.remove(outp)
-    cmd = miri_cmd([prop, "--mode", "miri", "--threads", "1", "--seed", str(seed), "--out", outp])
-    try:
-        p = subprocess.run(cmd, cwd=HARNESS, env=miri_env(), stdout=subprocess.PIPE, stderr=subprocess.PIPE, text=True, timeout=3000)
-    except subprocess.TimeoutExpired:
-        res["inconclusive"] += 1
-        res["inconclusive_notes"].append("miri %s: timeout" % prop)
-        return res
-    rep = None
-    if os.path.exists(outp):
-        with open(outp) as f:
-            rep = json.load(f)
-    f = parse_miri(p.stderr)
-    if rep is None and f is None:
-        res["inconclusive"] += 1
-        res["inconclusive_notes"].append("miri %s: rc=%s %s" % (prop, p.returncode, p.stderr[-400:]))
-        return res
-    summ = {"wall_s": round(time.time() - t0, 1)}
-    if rep:
-        # the Miri run executes the same monitors on a small domain: its monitor failures are
-        # the same findings as in the native run and are not duplicated here; only UB counts.
-        summ["cases"] = rep["evaluations"]
-        summ["monitor_failure_signatures"] = len(rep.get("fail_counts", {}))
-        res["evaluations"] += rep["evaluations"]
-        res["distinct_nontrivial"] += rep["distinct_nontrivial"]
-    if f:
-        kind, func, file, head = f
-        summ["report"] = {"kind": kind, "func": func, "file": file}
-        res["failures"].append({"panel": "miri", "entry": func or "?", "class": "miri:%s" % kind, "tags": [file or "?"], "detail": "Miri: %s in %s (%s)" % (kind, func, file), "case": {"mode": "miri", "report_head": head}})
+    n = PURE_SHARDS.get(prop, 1)
+    # build once (sequentially) so the shards do not race on the target directory
+    subprocess.run(["cargo", "+nightly", "miri", "build", "--offline", "--target-dir", MIRI_DIR, "--features", "verif"], cwd=HARNESS, env=miri_env(), stdout=subprocess.PIPE, stderr=subprocess.STDOUT, text=True)
+
+    def one(i):
+        outp = os.path.join(OUT, "miri-%s-%d.json" % (prop, i))
+        if os.path.exists(outp):
+            os.remove(outp)
+        cmd = miri_cmd([prop, "--mode", "miri", "--threads", "1", "--seed", str(seed), "--shard", "%d/%d" % (i, n), "--out", outp])
+        try:
+            p = subprocess.run(cmd, cwd=HARNESS, env=miri_env(), stdout=subprocess.PIPE, stderr=subprocess.PIPE, text=True, timeout=3000)
+        except subprocess.TimeoutExpired:
+            return i, None, None, "timeout"
+        rep = None
+        if os.path.exists(outp):
+            with open(outp) as f:
+                rep = json.load(f)
+        return i, rep, p.stderr, None
+
+    with ThreadPoolExecutor(max_workers=min(n, 12)) as ex:
+        results = list(ex.map(one, range(n)))
+    summ = {"shards": n, "cases": 0, "monitor_failure_signatures": 0}
+    sigs = set()
+    for i, rep, stderr, err in results:
+        f = parse_miri(stderr or "")
+        if err or (rep is None and f is None):
+            res["inconclusive"] += 1
+            res["inconclusive_notes"].append("miri %s shard %d: %s" % (prop, i, err or (stderr or "")[-300:]))
+            continue
+        if rep:
+            # the Miri run executes the same monitors on a small domain: its monitor failures are the
+            # same findings as in the native run and are not duplicated here; only UB reports count.
+            summ["cases"] += rep["evaluations"]
+            sigs.update(rep.get("fail_counts", {}).keys())
+            res["evaluations"] += rep["evaluations"]
+            res["distinct_nontrivial"] += rep["distinct_nontrivial"]
+        if f:
+            kind, func, file, head = f
+            summ.setdefault("reports", []).append({"kind": kind, "func": func, "file": file})
+            res["failures"].append({"panel": "miri", "entry": func or "?", "class": "miri:%s" % kind, "tags": [file or "?"], "detail": "Miri: %s in %s (%s)" % (kind, func, file), "case": {"mode": "miri", "report_head": head}})
+    summ["monitor_failure_signatures"] = len(sigs)
+    summ["wall_s"] = round(time.time() - t0, 1)
     res["summary"]["miri"] = summ
     return res
 
